@@ -198,7 +198,7 @@ where B: StarkField + ExtensibleField<2> + ExtensibleField<3> + 'static, H: Elem
     fn build_aux_trace<E: FieldElement<BaseField = B>>(&self, main_trace: &LagTrace<B>, aux: &AuxRandElements<E>) -> ColMatrix<E> {
         let main = main_trace.main_segment();
         let r = aux.lagrange().expect("lagrange random elements");
-        let sum = r.iter().fold(E::ZERO, |a, &x| a + x);
+        let sum = r.iter().fold(E::ZERO, |a, &x| a + x) + aux.rand_elements().iter().fold(E::ZERO, |a, &x| a + x);
         let mut cols: Vec<Vec<E>> = (1..self.aw).map(|_| main.get_column(0).iter().map(|v| sum.mul_base(*v)).collect()).collect();
         let n = main.num_rows();
         cols.push((0..n).map(|row| r.iter().enumerate().fold(E::ONE, |acc, (bit, &ri)| if row & (1 << bit) == 0 { acc * (E::ONE - ri) } else { acc * ri })).collect());
@@ -212,7 +212,10 @@ where B: StarkField + ExtensibleField<2> + ExtensibleField<3> + 'static, H: Elem
     let col: Vec<B> = (0..n).map(|i| B::from(i as u32)).collect();
     // reference validity (independent of the library): increments by one from zero
     if col[0] != B::ZERO || (0..n - 1).any(|i| col[i + 1] != col[i] + B::ONE) { return "invalid-trace".into(); }
-    let info = match catch(move || TraceInfo::new_multi_segment(1, aw, 0, n, vec![])) { Ok(i) => i, Err(_) => return "inadmissible".into() };
+    // number of ordinary auxiliary random elements: 0, 1 or 2 depending on the width, so that both the GKR draw and the
+    // ordinary aux-randomness draw happen (their order matters to the transcript: seeded change C04-m2)
+    let nr = aw % 3;
+    let info = match catch(move || TraceInfo::new_multi_segment(1, aw, nr, n, vec![])) { Ok(i) => i, Err(_) => return "inadmissible".into() };
     let trace = LagTrace { main: ColMatrix::new(vec![col]), info };
     let prover = LagProver::<B, H> { options: opts.clone(), aw, _p: std::marker::PhantomData };
     finish_run::<LagAir<B>, H, _>(catch(AssertUnwindSafe(|| prover.prove(trace))), (), opts)
